@@ -221,3 +221,4 @@ func zzFinish(wait time.Duration) []string {
 }
 func vSetClockStep(int) {}
 func vSetOneShotTimers(bool) {}
+func vSetOneShotMax(int) {}
